@@ -29,6 +29,15 @@ def flow_scripts(rng, n):
             evs.append(ev(m + 1, t + rng.choice([0, 30, 200]), act=rng.choice(["quit", "gquit"])))
         out.append(script("f%05d" % k, evs, "flow", cap=rng.choice([1, 2, 4, 4096]),
                           ecap=64, throttle=rng.choice([0, 30, 50]), sync=sync))
+    # long streams: whatever holds for a handful of events holds for dozens (counters, batch sizes)
+    for j in range(max(10, n // 60)):
+        m = rng.randrange(30, 90)
+        evs, t = [], 0
+        for i in range(1, m + 1):
+            t += rng.choice([0, 0, 0, 0, 5, 10, 40])
+            evs.append(ev(i, t, prio=rng.choice([0, 1, 1, 1, 2, 3]), verdict=rng.choice(["pass", "pass", "reject", "error"]),
+                          empty=rng.random() < 0.1, hold=rng.choice([0, 0, 0, 20])))
+        out.append(script("F%05d" % j, evs, "flow-long", cap=rng.choice([2, 8, 4096]), ecap=64, throttle=rng.choice([0, 30])))
     return out
 
 
@@ -99,6 +108,23 @@ def error_scripts(rng, n):
         evs.append(ev(m + 1, t + 300))        # a later ordinary event must still be delivered
         out.append(script("r%05d" % k, evs, "errors", cap=rng.choice([2, 4096]), ecap=rng.choice([1, 1, 2, 64]),
                           throttle=rng.choice([0, 30])))
+    # long error bursts against a tiny error channel, with handlers of several speeds
+    for j in range(max(10, n // 60)):
+        m = rng.randrange(20, 50)
+        evs, t = [], 0
+        for i in range(1, m + 1):
+            t += rng.choice([0, 0, 0, 10, 30])
+            v = rng.choice(["error", "error", "pass", "reject"])
+            e = ev(i, t, prio=rng.choice([1, 1, 2]), verdict=v, hold=rng.choice([0, 0, 30]))
+            if v == "error":
+                e["errhold"] = rng.choice([0, 0, 10, 40])
+                if rng.random() < 0.1:
+                    e["onerr"] = "replace"
+            evs.append(e)
+        evs.append(ev(m + 1, t + 2500))
+        sc = script("R%05d" % j, evs, "errors-long", cap=rng.choice([4, 4096]), ecap=rng.choice([1, 2]), throttle=rng.choice([0, 30]))
+        sc["horizon"] += 3000
+        out.append(sc)
     return out
 
 
